@@ -2,27 +2,11 @@
 // (C04 panic-freedom / invariant, C08 exact effects, C09 channel selection, C10 RX1 frequency pairing, C11 CFList)
 // @inject file=lorawan-device/src/region/dynamic_channel_plans/mod.rs mod=verif_dyn
 // @job pkg=lorawan-device zflags=function-contracts,stubbing
-// @requires common_tape
+// @requires common_tape dev_region
 use super::*;
 use crate::verif_tape as tape;
 
-/// RNG contract-stub (A-rng): every draw is an arbitrary value chosen by the verifier, so ALL random streams
-/// are explored; `draws` counts them (ghost).
-/// Progress obligation: the first `free` draws are arbitrary; afterwards the stream delivers `accept`, a draw the
-/// harness derives from the invariant (e.g. the index of an enabled, defined channel).  A retry loop therefore
-/// exits after at most free+1 iterations on these streams, and the existence of `accept` is exactly the
-/// "usable channel exists" part of the contract.  Unbounded rejection by an adversarial stream is excluded only
-/// by A-rng (fair RNG), which no deductive argument can replace.
-pub(crate) struct TapeRng { pub draws: u32, pub free: u32, pub accept: u32 }
-impl RngCore for TapeRng {
-    fn next_u32(&mut self) -> u32 {
-        self.draws += 1;
-        if self.draws <= self.free { tape::stub_u8() as u32 | ((tape::stub_u8() as u32) << 8) } else { self.accept }
-    }
-    fn next_u64(&mut self) -> u64 { self.next_u32() as u64 }
-    fn fill_bytes(&mut self, dest: &mut [u8]) { let mut i = 0; while i < dest.len() { dest[i] = 0; i += 1; } }
-    fn try_fill_bytes(&mut self, dest: &mut [u8]) -> Result<(), rand_core::Error> { self.fill_bytes(dest); Ok(()) }
-}
+pub(crate) use crate::region::verif_region::TapeRng;
 
 // ------------------------------------------------------------------ representation invariant (DESIGN 3.2)
 /// join channels are defined and never move
